@@ -7,10 +7,11 @@ PROP = {
  "functions": [
   "mouette.geometry.geometry.cross",
   "mouette.geometry.geometry.dot",
-  "mouette.mesh.datatypes.volume.VolumeMesh._Connectivity._compute_adjacent_cell"
+  "mouette.mesh.datatypes.volume.VolumeMesh._Connectivity._compute_adjacent_cell",
+  "mouette.mesh.mesh_data.RawMeshData._generate_cell_faces"
  ],
  "level": "other",
- "explanation": "Deductive part: (1) the cell-to-cell table of a tetrahedral mesh (_compute_adjacent_cell): for every mesh, entry (c, i) is looked up through the face that does not contain the i-th vertex of cell c (the i-th face of a cell is the one opposite its i-th vertex), holds the other cell incident to that face when there is one and has no entry (NOT_AN_ID default) otherwise - verified against the contracts of face_id and face_to_cells, which are named by uninterpreted functions; (2) the vector primitives the orientation test is built from (exact cross / dot). The face/cell incidence tables themselves, rotational sorting around edges, border classification and the boundary-surface extraction (dicts of lists and sets built in nested loops over keyify keys) are not under contract; those clauses are decided only by the bounded native contract (not a proof).",
+ "explanation": "Deductive part: (1) the cell-to-cell table of a tetrahedral mesh (_compute_adjacent_cell): for every mesh, entry (c, i) is looked up through the face that does not contain the i-th vertex of cell c (the i-th face of a cell is the one opposite its i-th vertex), holds the other cell incident to that face when there is one and has no entry (NOT_AN_ID default) otherwise - verified against the contracts of face_id and face_to_cells, which are named by uninterpreted functions; (2) the cell-to-face records of the raw data (_generate_cell_faces, tetrahedra): four records per cell in cell order, record 4c+i owned by c and naming the face opposite the i-th vertex of c, given that faces were completed from cells and a shared face is stored once; (3) the vector primitives the orientation test is built from (exact cross / dot). The face/cell incidence tables themselves, rotational sorting around edges, border classification and the boundary-surface extraction (dicts of lists and sets built in nested loops over keyify keys) are not under contract; those clauses are decided only by the bounded native contract (not a proof).",
  "trusted_base": [
   "A1 CPython executes the parsed AST as pyvc models it",
   "A2 floats are mathematical reals",
@@ -18,7 +19,8 @@ PROP = {
   "C01 contract of face_id (the face spanned by three vertices exists in a conforming mesh), contract of face_to_cells (named by f2c_len / f2c_at)",
   "conforming mesh: a face has at most one incident cell other than a given one (precondition, through the Skolem function other_cell)",
   "A-attr: a fresh sparse attribute has no written entry; has_attribute / create_attribute look the name up in the attribute table",
-  "every cell is a tetrahedron (precondition: rows of length 4)"
+  "every cell is a tetrahedron (precondition: rows of length 4)",
+  "_generate_cell_faces: all cells are tetrahedra, the tables are empty on entry, every face of every cell is in the face list exactly once (preconditions: established by _complete_faces_from_cells, which is not under contract)"
  ],
  "bounded": [
   {
